@@ -534,6 +534,13 @@ fn after_callback(i: usize, code: u32) -> Option<u32> {
                 if x.set_members(s).is_empty() {
                     x.violation("wait-on-empty-set", format!("task {i} returned WAIT on set {s} but nothing is joined to it: the task can never be resumed"));
                 }
+                // every operation that is blocked in the host is registered with some waitable set
+                // while the task that awaits it is suspended (else its completion is never seen)
+                for (w, what) in x.inflight() {
+                    if !x.w.get(&w).map(|e| e.alive && e.set != 0).unwrap_or(false) {
+                        x.violation("blocked-operation-not-joined", format!("task {i} returned WAIT while {what} (waitable {w}) is blocked in the host but joined to no waitable set: its completion can never be delivered"));
+                    }
+                }
                 if x.tasks[i].ctx == 0 {
                     x.violation("context-lost", format!("task {i} returned WAIT but its context slot is empty: the task state is not stored between callbacks"));
                 }
